@@ -294,6 +294,28 @@ fn run_nd<T: Fl>(c: &NCase, lx: &mut Local) {
             }
             (a, b) => lx.fail("C07/axis-failed", || format!("weighted_var_axis / weighted_std_axis failed: {:?} / {:?} on {:?}", a.map(|r| r.map(|_| ())), b.map(|r| r.map(|_| ())), c)),
         }
+        // whole n-D array weighted variance / std: the weights array has the data's shape, in a layout of
+        // its own (reversed axis order, flipped steps), with an asymmetric fill
+        {
+            let n: usize = c.shape.iter().product();
+            let wfull: Vec<T> = (0..n).map(|i| T::of(WEIGHTS[1 + (i * i + i / 2 + c.fill) % 3])).collect();
+            let lw = Layout { perm: c.layout.perm.iter().rev().cloned().collect(), steps: c.layout.steps.iter().map(|s| -s).collect(), pad: 1 };
+            let hw2 = Host::new(&c.shape, &wfull, &lw, T::of(555.0));
+            let parts = fl::weighted_var_parts(&rats(&data), &rats(&wfull));
+            let denom = &parts.w_total - &Rat::from_f64(ddof);
+            if !denom.is_zero() {
+                let want = &parts.s / &denom;
+                let b = var_bound::<T>(&parts, n, ddof);
+                let (vd2, vw2) = (hd.view(), hw2.view());
+                match guarded(|| vd2.weighted_var(&vw2, T::of(ddof))) {
+                    Ok(Ok(g)) => {
+                        let e = err_of(g.to_f64_(), &want);
+                        lx.within(e, b, "C07/weighted-var-nd", || format!("[{}] n-D weighted_var(ddof {}) = {:?}, exact {:e}, error {:e} > bound {:e}: {:?} (weights {:?} in layout {:?})", T::NAME, ddof, g, want.to_f64(), e, b, c, wfull, lw));
+                    }
+                    other => lx.fail("C07/weighted-var-failed", || format!("n-D weighted_var: {:?} on {:?}", other.map(|r| r.map(|x| x.to_f64_())), c)),
+                }
+            }
+        }
         // whole n-D array central moment (order 2..4) under this layout
         let dr = rats(&data);
         for p in 2..=4u16 {
@@ -563,7 +585,7 @@ fn main() {
     }
     rep.run_sub(
         "n-dimensional",
-        &format!("shapes {:?} x every axis x all layouts (4-D, 5-D: covering subset) x weights strides x {} fills x ddof rotating, f64/f32: weighted_var_axis / weighted_std_axis per lane vs exact and vs the whole-array routine; whole-array central_moment(2..4)", shapes, if thorough { 12 } else { 6 }),
+        &format!("shapes {:?} x every axis x all layouts (4-D, 5-D: covering subset) x weights strides x {} fills x ddof rotating, f64/f32: weighted_var_axis / weighted_std_axis per lane vs exact and vs the whole-array routine; whole-array weighted_var with a same-shaped weights array in a layout of its own; whole-array central_moment(2..4)", shapes, if thorough { 12 } else { 6 }),
         ncases.into_iter(),
         |c, lx| {
             lx.nontrivial(true);
